@@ -17,4 +17,5 @@ Definition dispatch (name : string) (v : val) : val :=
   else if String.eqb name "universe" then entry_universe v
   else if String.eqb name "optimiser" then entry_optimiser v
   else if String.eqb name "pcm" then entry_pcm v
+  else if String.eqb name "pcm_seq" then entry_pcm_seq v
   else VL [VS "UNKNOWN_ENTRY"].
